@@ -455,16 +455,6 @@ func main() {
 	}
 	e := &engine{c: c, tmp: tmp, env: loadEnv(tmp), logger: zap.NewNop(), stats: map[string]*groupStat{}, reasons: map[string]int64{}, nshards: 1, sampled: map[string]bool{}}
 
-	if os.Getenv("C18_BASE") != "" {
-		for _, d := range []J{richDoc(m128, false), richDoc("socks5", true)} {
-			res := load(resolve(render(d), e.env), e.logger)
-			j := judge(d)
-			fmt.Printf("%s\n  accepted=%v stage=%s err=%s oracle=%s %v %v\n", render(d), res.accepted, res.stage, res.err, j.class(), j.invalid, j.either)
-			res.close()
-		}
-		cleanup()
-		os.Exit(0)
-	}
 	if c.Replay != "" {
 		bad := replay(e)
 		cleanup()
@@ -1113,5 +1103,3 @@ func replay(e *engine) bool {
 	}
 	return bad
 }
-
-var _ = filepath.Join
